@@ -149,6 +149,20 @@ func c01LayoutCandidates(src []byte) []layoutCandidate {
 		}
 		next := strings.TrimLeft(lines[j], "\t")
 		ci, ni := indentOf(lines[i]), indentOf(lines[j])
+		// an own-line comment written at a shallower indentation than the continuation line above
+		// it (the last line of a multi-line expression or type, e.g. a selector broken after the
+		// dot), followed by a blank line: gofmt keeps it where it is, the restored positions make
+		// go/printer print it one level deeper (still inside the construct's pending indentation)
+		if strings.TrimSpace(lines[j]) == "" {
+			p := i - 1
+			for p >= 0 && strings.TrimSpace(lines[p]) == "" {
+				p--
+			}
+			if p >= 0 && p == i-1 && !co[p] && indentOf(lines[p]) > ci {
+				cs = append(cs, layoutCandidate{"comment-below-continuation-line-at-shallower-indent", i, j - 1, 0})
+			}
+			continue
+		}
 		switch {
 		case strings.HasPrefix(next, ")") && ci <= ni:
 			// an own-line comment directly before a closing ")" that gofmt leaves unindented
